@@ -39,7 +39,10 @@ def parseFrame (w : String) : Ev :=
   else if w == "hook1" then .setHook true
   else if w == "hook0" then .setHook false
   else if w == "clear" then .clearHook
-  else .disconnect
+  else if w == "x:close" then .disconnect .clientClose
+  else if w == "x:write" then .disconnect .writeError
+  else if w == "x:lifetime" then .disconnect .lifetime
+  else .disconnect .serverKill
 
 structure DSt where
   cfg : Cfg := ⟨false, false⟩
@@ -59,7 +62,7 @@ def step (d : DSt) (ws : List String) : DSt × String :=
   | "!e2e" :: _ :: frames =>
     -- specification: the server's push log, then nil once
     let evs := frames.map parseFrame
-    let live := evs.takeWhile fun | .disconnect => false | _ => true
+    let live := evs.takeWhile fun | .disconnect _ => false | _ => true
     (d, showArgs (pushLog ⟨false, true⟩ live ++ [none]))
   | "e2ehook" :: frames =>
     (d, showArgs (hookLog (run ⟨false, false⟩ {} (frames.map parseFrame))))
